@@ -55,7 +55,30 @@ def build(flavour):
     if os.environ.get("VERIF_IMPL") == "stage2" and flavour in ("plain", "hooks"):
         import stage2
         return stage2.build(flavour)
-    return _build_stage1(flavour)
+    d = _build_stage1(flavour)
+    if os.environ.get("VERIF_HARVEST"):
+        d = _harvest_wrap(d)
+    return d
+
+
+def _harvest_wrap(d):
+    """corpus harvesting only (corpus/README): a copy of the build whose cproc-qbe is harness/hvwrap.c in front of the real one"""
+    hv = d + "-hv"
+    if not os.path.exists(os.path.join(hv, ".ok")):
+        tmp = hv + ".tmp%d" % os.getpid()
+        shutil.rmtree(tmp, ignore_errors=True)
+        os.makedirs(tmp)
+        for f in os.listdir(d):
+            if f != "cproc-qbe":
+                os.symlink(os.path.join(d, f), os.path.join(tmp, f))
+        subprocess.check_call(["gcc", "-O1", "-o", os.path.join(tmp, "cproc-qbe"), "-DREAL=\"%s\"" % os.path.join(d, "cproc-qbe"),
+                               os.path.join(VERIF, "harness", "hvwrap.c")])
+        try:
+            os.rename(tmp, hv)
+        except OSError:
+            shutil.rmtree(tmp, ignore_errors=True)
+    os.makedirs(os.environ["VERIF_HARVEST"], exist_ok=True)
+    return hv
 
 
 def _build_stage1(flavour):
